@@ -1,15 +1,15 @@
 SPECIFICATION Spec
 CONSTANTS
-  Threads = {1, 2}
+  Threads = {1, 2, 3}
   NMeth = 3
   BadM = 0
   MaxFail = 0
-  CallsPer = 1
-  SwapLast = FALSE
-  RestoreOnFail = FALSE
-  Peekers = {}
+  CallsPer = 3
+  SwapLast = TRUE
+  RestoreOnFail = TRUE
+  Peekers = {1, 2, 3}
   AtomicAnalysis = TRUE
-  UseLock = FALSE
+  UseLock = TRUE
 PROPERTY AnswersCorrect
 PROPERTY RecoversAfterRemoval
 INVARIANT EachAsAlone
